@@ -176,7 +176,7 @@ type Block struct {
 
 func (b Block) String() string { return fmt.Sprintf("%s@%d", b.Encl, b.File) }
 
-var FileNames = []string{"a.go", "b_Test.go", "c_test.go", "n.go"} // b_Test.go: a REGULAR file (the test suffix is case-sensitive); // n.go: a file of the importing package that does not import d itself
+var FileNames = []string{"a.go", "b_test.pb_Test.go", "c_test.go", "n.go"} // b_Test.go: a REGULAR file (the test suffix is case-sensitive); // n.go: a file of the importing package that does not import d itself
 
 // SiteInst is a rendered site.
 type SiteInst struct {
@@ -262,10 +262,13 @@ func annLinesT(m Mix) []string {
 	}
 	if m.Extra == 1 {
 		l = append(l, "// T is the subject type; the word @immutable in the middle of a line means nothing.")
-		l = append(l, ctor...)
+		// the trailing text of an annotation line may mention OTHER keywords
+		for _, c := range ctor {
+			l = append(l, c+" (the type also @implements nothing; see @immutable, @testonly and @packageonly)")
+		}
 		l = append(l, "// some prose between the annotations")
 		if m.Imm {
-			l = append(l, imm+" because it is shared")
+			l = append(l, imm+" because it is shared - fields are only set by the @constructor functions, which @implements nothing")
 		}
 		return l
 	}
